@@ -158,12 +158,59 @@ def handleLogic (j : Json) : Except String Json := do
     | .error e => return errJson e
   | _ => throw s!"unknown logic method {m}"
 
+def jNats (l : List Nat) : Json := Json.arr (l.map (fun (i : Nat) => toJson i)).toArray
+def getNats (j : Json) (k : String) : Except String (List Nat) := do
+  let a ← j.getObjValAs? (Array Nat) k
+  return a.toList
+
+def exceptJson {α} (f : α → Json) : Except PyErr α → Json
+  | .ok a => Json.mkObj [("ok", f a)]
+  | .error e => errJson e
+
+def getAvail (j : Json) : Except String Comb.Avail :=
+  match j.getObjVal? "counters" with
+  | .ok (.arr _) => do return .counters (← getNats j "counters")
+  | _ => do return .uniform (← getNat j "m")
+
+def handleComb (j : Json) : Except String Json := do
+  let m ← getStr j "m_"
+  match m with
+  | "extract_components" =>
+    return exceptJson jNats (Comb.extractComponents (← getNats j "sizes") (← getNat j "n"))
+  | "jth_combination" =>
+    return exceptJson jNats (Comb.jthCombination (← getNat j "l") (← getNat j "n") (← getNat j "j"))
+  | "n_choose_m" =>
+    return Json.mkObj [("ok", toJson (Comb.nChooseM (← getNat j "n") (← getNat j "m")))]
+  | "jth_combination_norepl" =>
+    return Json.mkObj [("ok", jNats (Comb.jthCombinationNoRepl (← getNat j "n") (← getNat j "m") (← getNat j "j")))]
+  | "jth_inversion" =>
+    return exceptJson jNats (Comb.jthInversionSequence (← getNat j "n") (← getNat j "m") (← getNat j "j"))
+  | "construct_permutation" =>
+    return exceptJson jNats (Comb.constructPermutation (← getNats j "inv") (← getNat j "n"))
+  | "jth_permutation_prefix" =>
+    return exceptJson jNats (Comb.jthPermutationPrefix (← getNat j "n") (← getNat j "m") (← getNat j "j"))
+  | "count_remaining" =>
+    return Json.mkObj [("ok", toJson (Comb.countRemaining (← getNats j "counters")))]
+  | "perm_with_copies" =>
+    return exceptJson jNats (Comb.constructPermutationWithCopies (← getNat j "idx") (← getNat j "q") (← getNat j "m"))
+  | "perm_with_varying_copies" =>
+    return exceptJson jNats (Comb.constructPermutationWithVaryingCopies (← getNat j "idx") (← getNat j "q") (← getNats j "counters"))
+  | "count_perms_with_copies" =>
+    return Json.mkObj [("ok", toJson (Comb.countPermutationsWithCopies (← getNat j "q") (← getNat j "m") (← getNat j "first_n")))]
+  | "count_prefixes" =>
+    return Json.mkObj [("ok", toJson (Comb.countPrefixes (← getNat j "q") (← getAvail j) (← getNat j "first_n")))]
+  | "jth_prefix" =>
+    return exceptJson (fun (o : Option (List Nat)) => match o with | some p => jNats p | none => Json.null)
+      (Comb.jthPrefix (← getNat j "q") (← getAvail j) (← getNat j "first_n") (← getNat j "j"))
+  | _ => throw s!"unknown comb method {m}"
+
 def handle (j : Json) : Except String Json := do
   let op ← getStr j "op"
   match op with
   | "card" => handleCard j
   | "combine" => handleCombine j
   | "logic" => handleLogic j
+  | "comb" => handleComb j
   | _ => throw s!"unknown op {op}"
 
 partial def loop (h : IO.FS.Stream) (out : IO.FS.Stream) : IO Unit := do
